@@ -110,15 +110,15 @@ func cases(tier string, seed int64) []eng.Case {
 		lp, w  int
 	}
 	shapes := []brShape{
-		{[]int{28}, nil, -1, 4},               // 32-bit fast path
-		{[]int{29}, nil, -1, 3},               // 32-bit fast path, prime just below 2^29
-		{[]int{55}, nil, -1, 7},               // general path, power-of-two digits
-		{[]int{58}, nil, -1, 16},              //
-		{[]int{45, 45}, nil, -1, 0},           // one prime per digit, no P
-		{[]int{50}, []int{55}, 0, 0},          // single P
-		{[]int{50}, []int{55}, 0, 8},          // single P with power-of-two digits
-		{[]int{45, 45}, []int{60, 60}, 1, 0},  // two P
-		{[]int{45, 45}, []int{60, 60}, 0, 0},  // keys at levelP 0 of a two-P chain
+		{[]int{28}, nil, -1, 4},                      // 32-bit fast path
+		{[]int{29}, nil, -1, 3},                      // 32-bit fast path, prime just below 2^29
+		{[]int{55}, nil, -1, 7},                      // general path, power-of-two digits
+		{[]int{58}, nil, -1, 16},                     //
+		{[]int{45, 45}, nil, -1, 0},                  // one prime per digit, no P
+		{[]int{50}, []int{55}, 0, 0},                 // single P
+		{[]int{50}, []int{55}, 0, 8},                 // single P with power-of-two digits
+		{[]int{45, 45}, []int{60, 60}, 1, 0},         // two P
+		{[]int{45, 45}, []int{60, 60}, 0, 0},         // keys at levelP 0 of a two-P chain
 		{[]int{36, 36, 36}, []int{61, 61, 61}, 2, 0}, // three P
 	}
 	pairs := [][2]int{{4, 5}, {4, 6}, {5, 6}, {6, 6}, {4, 7}, {5, 7}, {6, 8}, {5, 8}, {6, 9}, {5, 9}, {7, 7}, {4, 8}}
@@ -161,7 +161,7 @@ func cases(tier string, seed int64) []eng.Case {
 		}
 		if pr[0] <= 5 && kind == "grid" {
 			slotMode = "all"
-			ncts = min(8, (1<<pr[1]+1)/(1<<pr[0])+1)
+			ncts = min(20, (1<<pr[1]+1)/(1<<pr[0])+1) // every point of the discretisation grid
 		}
 		d := brDesc{BR: br, LWE: lwe, LevelP: sh.lp, W: sh.w, Funcs: funcSets[i%len(funcSets)], A: iv[0], B: iv[1], Kind: kind, SlotMode: slotMode, NCts: ncts, LWELevel: lweLevel}
 		out = append(out, eng.Case{ID: fmt.Sprintf("br/%d/%s/%s/lp%d/w%d/%s/%s", i, br.short(), lwe.short(), sh.lp, sh.w, kind, slotMode), Sig: "C20|blindrot.Evaluator.Evaluate", Desc: d, Run: func(c *eng.Ctx) { runBR(c, d) }})
